@@ -42,8 +42,17 @@ def check(ctx, tier, seed, t0):
         if name.endswith('@fbe'):
             continue
         cmds += l if tier != 'quick' else l[::2]
+    # commands that leave their buffer by design (the short-buffer cases of C03/C06: the model says OOB) prove nothing about
+    # placement, and on a build without ASan they corrupt the heap, which glibc reports or not depending on the offset
+    try:
+        verdicts = vlib.run_oracle(ctx, cmds)
+        n0 = len(cmds)
+        cmds = [c for c, v in zip(cmds, verdicts) if not v.startswith('OOB')]
+    except Exception as e:
+        proof['broken'].append({'file': 'oracle (model verdicts for the C15 command sample)', 'line': 0, 'error': str(e)[:300]})
+        n0 = len(cmds)
     failures = []
-    dist = {'commands': len(cmds)}
+    dist = {'commands': len(cmds), 'dropped_out_of_bounds_by_design': n0 - len(cmds)}
     # (1) inventory of alignment-raising pointer casts
     inv = [c for f in (ctx.get('align') or {}).get('files', []) for c in f['casts']]
     dist['wide_cast_sites'] = len(inv)
